@@ -102,3 +102,15 @@ Proof. reflexivity. Qed.
 (* a handoff to a node that is not connected changes nothing *)
 Lemma handoff_unconnected_ignored ttl s l r : primary_loop ttl s (PHandoff false l :: r) = primary_loop ttl s r.
 Proof. reflexivity. Qed.
+
+(* a node that has a cluster id follows only a stream of that very cluster, and keeps its id *)
+Lemma attach_foreign_refused a b : a <> b -> attach (Some a) (Some b) = (Some a, false).
+Proof. intros H. unfold attach. destruct (N.eqb_spec a b); [contradiction|reflexivity]. Qed.
+Lemma attach_keeps_id a s : fst (attach (Some a) s) = Some a.
+Proof. destruct s; reflexivity. Qed.
+Lemma attach_follows_only_own l s c : attach l s = (Some c, true) -> s = Some c /\ (l = None \/ l = Some c).
+Proof.
+  unfold attach. destruct l as [a|], s as [b|]; cbn; intros H; inversion H; subst; try discriminate.
+  - apply N.eqb_eq in H2. subst. tauto.
+  - tauto.
+Qed.
